@@ -133,6 +133,10 @@ Section KeysModel.
   (** * What a channel shows of its keys *)
   Definition commit_secret (k : chkeys) (n : nat) : bytes :=
     build_commitment_secret bytes sha flip_bit (k_cseed k) (idx_of_commit n).
+  (** Channel(Stub)::check_future_secret(commitment_number, suggested): the suggested secret is
+      compared with the channel's own secret of that number (no gate on the channel state) *)
+  Definition check_future_secret (k : chkeys) (n : nat) (s : bytes) : bool :=
+    bytes_eqb s (commit_secret k n).
   Record observation := mkobs {
     o_basepoints : list point;       (* funding_pubkey, revocation, payment, delayed_payment, htlc *)
     o_funding_key : bytes;
